@@ -32,7 +32,7 @@ fn visit(s: &str, st: &mut Stats) {
 }
 
 pub fn run(_env: &Env, run: &Run) -> (Stats, Coverage) {
-    let sigma = sigma10();
+    let sigma = crate::sig::rotated(_env, sigma10(), run.seed);
     let n = run.tier.pick(5, 6);
     let mut st = strtree(&sigma, n, |_c, s, st| visit(s, st));
     st.merge(cpsweep(|c, st| {
